@@ -52,6 +52,15 @@ Scope: with noaliasing=True the property is limited to states in which distinct 
 overlap; a difference found under noaliasing=True is dropped (and counted) when two accesses of the map
 (one of them a store) with different symbolic bases overlap in the concrete state.
 
+Dependency-dense sequences (phase 1c, first claim on the budget): every mnemonic with semantics is the LAST
+instruction of a sequence whose first instructions copy a register b into each operand register a of that
+instruction (plain moves preferred, so that memory operands stay in the scratch windows) and then overwrite b
+(by a move from a register not involved, else a small constant), so that b means two things in the block:
+semantics that push an operand through the map twice (`src = fmap(op); ... fmap(f(src))`) or evaluate it in
+the wrong map only go wrong on such blocks.  quick: rounds over all mnemonics in a seeded order until 70% of
+the ISA's slice is used; thorough: every spec, three rounds.  The re-evaluation family is signed per ISA *and
+mnemonic* (`C02:<isa>:<mnemonic>:semantics-depend-on-the-map-built-so-far`).
+
 Nothing here depends on the Lean model: the only things trusted are amoco's own public API
 (mapper.__setitem__/__getitem__, `>>`, MemoryMap.write/read) used to build/read concrete states.
 
